@@ -10,7 +10,7 @@ H="$(cd "$HERE/../.." && pwd)"
 GEN="$OUT.gen"; rm -rf "$GEN"; mkdir -p "$GEN"
 # the instrumenter is plain Go (x/tools/go/ast/astutil comes with the repository's module graph)
 go build -o "$BIN/c16instr" ./cmd/c16/instr
-FILES="clients/datasource/cache.go guidedremediation/internal/strategy/common/common.go"
+FILES="clients/datasource/cache.go guidedremediation/internal/strategy/common/common.go clients/resolution/combined_native_client.go"
 {
   echo '{"Replace": {'
   for f in $FILES; do
